@@ -131,7 +131,12 @@ def run(res, tier, seed):
         res.sample({'query': qgen.render_query(c['q'], 'py'), 'A': c['A'], 'B': c['B']})
     engine_corr.run_cases(res, 'C01', cases, 'py', rnd=random.Random(seed + 5))
     engine_corr.js_leg(res, 'C01', cases, rnd=random.Random(seed + 105))
+    # the text-to-code step in front of the engine: star forms, COUNT(*), aliases (Model/Translate.lean vs the real translate_select_expression)
+    import translate_corr
+    translate_corr.run_leg(res, tier, seed, {'select'})
 
 
 def replay(res, path):
-    return engine_corr.replay(res, path)
+    import translate_corr
+    r = translate_corr.replay(res, path)
+    return engine_corr.replay(res, path) if r is None else r
